@@ -336,6 +336,14 @@ class MonitoredFocusList(MonitoredList[_T], typing.Generic[_T]):
         if focus is not None:
             return focus
 
+        if step < 0:
+            # a reversed range covers the same items as an ascending one
+            affected = range(start, stop, step)
+            start, stop, step = (affected[-1], affected[0] + 1, -step) if affected else (0, 0, -step)
+        elif stop < start:
+            # like list, treat slices with stop before start as empty at start
+            stop = start
+
         focus = self._focus
         if step == 1:
             if start + num_new_items <= focus < stop:
